@@ -746,6 +746,21 @@ func runC08(p *core.Prog, r *core.Report, tier string) {
 					continue
 				}
 				lower := strings.ToLower(name)
+				// the status code at the top of the body: a number from Lighthouse, a string from Teku
+				for client, kind := range want {
+					if !(strings.HasPrefix(lower, client) || client == "lighthouse" && strings.HasPrefix(lower, "lh")) || strings.Contains(lower, "failure") || !strings.Contains(lower, "response") {
+						continue
+					}
+					for i := 0; i < st.NumFields(); i++ {
+						if !strings.Contains(st.Tag(i), "json:\"code\"") {
+							continue
+						}
+						nWire++
+						b, isBasic := st.Field(i).Type().Underlying().(*types.Basic)
+						r.Check(isBasic && b.Kind() == kind, "C08.m", "wire-type|"+name+"."+st.Field(i).Name(), p.Pos(st.Field(i).Pos()), "the status code has the JSON type the client sends",
+							"the status code of "+name+" is declared as "+st.Field(i).Type().String()+", but "+client+" sends it as a JSON "+map[types.BasicKind]string{types.String: "string", types.Int: "number"}[kind]+": the error body no longer decodes, so this client's tolerated rejections count as failures")
+					}
+				}
 				for client, kind := range want {
 					if !(strings.HasPrefix(lower, client) || client == "lighthouse" && strings.HasPrefix(lower, "lh")) || !strings.Contains(lower, "failure") {
 						continue
